@@ -10,11 +10,14 @@ The argument has two halves:
      (`tagRole_epfs_eq_html`);
  (2) the scanners produce such agreeing tokens for the spellings of one tag
      (`dtml_ssi_same_token`, `dtml_ssi_same_end_token`, `entity_is_var_html_quote`,
-     `dotted_entity_is_var`).
+     `dotted_entity_is_var`), and for whole documents printed in the `<dtml-…>` and the
+     `<!--#…-->` spelling (`dtml_ssi_documents_same_stream`, `dtml_ssi_documents_compile_same`;
+     printer / scanner round trip in Lemmas/Print.lean).
 Rendering, errors and calls are functions of the compiled tree, hence equal.
 -/
 import DTML.Scan
 import DTML.Parse
+import DTML.Lemmas.Print
 set_option linter.unusedVariables false
 namespace DTML.Props.C07
 open DTML.Scan DTML.Parse
@@ -303,5 +306,50 @@ theorem dotted_entity_is_var (mods name rest : Text) (hm : ∀ c ∈ mods, isEnt
   have hemp : args.isEmpty = false := by cases args <;> simp_all
   unfold candidate
   simp [List.isPrefixOf, hf, hall, hd, hlen, htake, hdrop, hemp]
+
+section Documents
+open DTML.Lemmas.Print
+
+/-! #### (4) whole documents: the `<dtml-…>` and the `<!--#…-->` spelling of one document -/
+
+theorem same_stream_printed (items : List Item) :
+    SameStream (items.map (fun i => (i.lit, tokOf (printDtml i) i)))
+               (items.map (fun i => (i.lit, tokOf (printSsi i) i))) := by
+  induction items with
+  | nil => exact .nil
+  | cons i r ih => exact .cons ⟨rfl, rfl, rfl⟩ ih
+
+/-- **A document spelled with `<dtml-…>` tags and the same document spelled with `<!--#…-->` tags
+are scanned into the same token stream** (same literals, tokens of the same meaning, same trailing
+text) — for every list of (literal, tag) items whose literals contain no `<` / `&`, whose names are
+letters (not starting with `end` for a start tag) and whose arguments are stripped and free of `>`. -/
+theorem dtml_ssi_documents_same_stream (items : List Item) (tail : Text) (hw : ∀ i ∈ items, WfSsi i) (ht : CleanLit tail) :
+    SameStream (tokens .html (printDoc printDtml items tail)).1 (tokens .html (printDoc printSsi items tail)).1 ∧
+    (tokens .html (printDoc printDtml items tail)).2 = (tokens .html (printDoc printSsi items tail)).2 := by
+  rw [tokens_dtml items tail (fun i hi => (hw i hi).1) ht, tokens_ssi items tail hw ht]
+  exact ⟨same_stream_printed items, rfl⟩
+
+/-- … and therefore **compile to the same tree, or fail with the same error at the same tag** -/
+theorem dtml_ssi_documents_compile_same (items : List Item) (tail : Text) (hw : ∀ i ∈ items, WfSsi i) (ht : CleanLit tail) :
+    compile .html (printDoc printDtml items tail) = compile .html (printDoc printSsi items tail) := by
+  unfold compile
+  rw [tokens_dtml items tail (fun i hi => (hw i hi).1) ht, tokens_ssi items tail hw ht]
+  exact build_congr_html _ _ (same_stream_printed items) tail 0 false [] [] []
+
+section Example
+private def doc : List Item :=
+  [⟨"a ".toList, false, "if".toList, "x".toList⟩, ⟨"yes".toList, false, "else".toList, []⟩,
+   ⟨"no".toList, true, "if".toList, []⟩]
+-- the hypotheses are satisfiable, and the two spellings are what one expects
+example : printDoc printDtml doc " z".toList = "a <dtml-if x>yes<dtml-else>no</dtml-if> z".toList := by decide
+example : printDoc printSsi doc " z".toList = "a <!--#if x-->yes<!--#else-->no<!--#/if--> z".toList := by decide
+example : ∀ i ∈ doc, WfSsi i := by
+  intro i hi
+  simp only [doc, List.mem_cons, List.mem_nil_iff, or_false] at hi
+  rcases hi with rfl | rfl | rfl <;>
+    refine ⟨⟨?_, ⟨?_, ?_⟩, ⟨?_, ?_⟩, ?_, ?_⟩, ?_, ?_⟩ <;> first | decide | (unfold CleanLit; decide)
+end Example
+
+end Documents
 
 end DTML.Props.C07
